@@ -149,17 +149,17 @@ fn begin_run(sh: &Arc<Shared>, inst: Inst, ordinal: u32, local: u32, obs: Obs) -
 pub fn make_body_ord(
     inst: Inst,
     sh: Arc<Shared>,
-) -> impl FnMut(Readers, Access, Commands, Local<u32>) + Send + Sync + 'static {
+) -> impl FnMut(Readers, Access, WrAccess, Commands, Local<u32>) + Send + Sync + 'static {
     let canary = Canary { inst, sh: sh.clone() };
     let mut ordinal = 0u32;
-    move |mut r: Readers, mut acc: Access, mut c: Commands, mut l: Local<u32>| {
+    move |mut r: Readers, mut acc: Access, mut wr: WrAccess, mut c: Commands, mut l: Local<u32>| {
         let _ = &canary;
         ordinal += 1;
         *l += 1;
         let (obs, held) = sample(&mut r);
         let ctx = begin_run(&sh, inst, ordinal, *l, obs);
         drop(held);
-        exec_acts(&sh, ctx.run, &ctx.acts, &mut c, &mut acc);
+        exec_acts(&sh, ctx.run, &ctx.acts, &mut c, &mut acc, Some(&mut wr));
         sh.push(Ev::BodyEnd { run: ctx.run, err: false });
     }
 }
@@ -167,17 +167,17 @@ pub fn make_body_ord(
 pub fn make_body_drop_err(
     inst: Inst,
     sh: Arc<Shared>,
-) -> impl FnMut(Readers, Access, Commands, Local<u32>) -> DropErr + Send + Sync + 'static {
+) -> impl FnMut(Readers, Access, WrAccess, Commands, Local<u32>) -> DropErr + Send + Sync + 'static {
     let canary = Canary { inst, sh: sh.clone() };
     let mut ordinal = 0u32;
-    move |mut r: Readers, mut acc: Access, mut c: Commands, mut l: Local<u32>| {
+    move |mut r: Readers, mut acc: Access, mut wr: WrAccess, mut c: Commands, mut l: Local<u32>| {
         let _ = &canary;
         ordinal += 1;
         *l += 1;
         let (obs, held) = sample(&mut r);
         let ctx = begin_run(&sh, inst, ordinal, *l, obs);
         drop(held);
-        exec_acts(&sh, ctx.run, &ctx.acts, &mut c, &mut acc);
+        exec_acts(&sh, ctx.run, &ctx.acts, &mut c, &mut acc, Some(&mut wr));
         sh.push(Ev::BodyEnd { run: ctx.run, err: ctx.err });
         if ctx.err {
             // early-out semantics: `?` on a failed lookup
@@ -190,17 +190,17 @@ pub fn make_body_drop_err(
 pub fn make_body_warn_err(
     inst: Inst,
     sh: Arc<Shared>,
-) -> impl FnMut(Readers, Access, Commands, Local<u32>) -> WarnErr + Send + Sync + 'static {
+) -> impl FnMut(Readers, Access, WrAccess, Commands, Local<u32>) -> WarnErr + Send + Sync + 'static {
     let canary = Canary { inst, sh: sh.clone() };
     let mut ordinal = 0u32;
-    move |mut r: Readers, mut acc: Access, mut c: Commands, mut l: Local<u32>| {
+    move |mut r: Readers, mut acc: Access, mut wr: WrAccess, mut c: Commands, mut l: Local<u32>| {
         let _ = &canary;
         ordinal += 1;
         *l += 1;
         let (obs, held) = sample(&mut r);
         let ctx = begin_run(&sh, inst, ordinal, *l, obs);
         drop(held);
-        exec_acts(&sh, ctx.run, &ctx.acts, &mut c, &mut acc);
+        exec_acts(&sh, ctx.run, &ctx.acts, &mut c, &mut acc, Some(&mut wr));
         sh.push(Ev::BodyEnd { run: ctx.run, err: ctx.err });
         if ctx.err {
             None::<()>.result()?;
@@ -209,7 +209,7 @@ pub fn make_body_warn_err(
     }
 }
 
-type ExclState = SystemState<(Readers<'static, 'static>, Access<'static, 'static>, Commands<'static, 'static>)>;
+type ExclState = SystemState<(Readers<'static, 'static>, Access<'static, 'static>, WrAccess<'static>, Commands<'static, 'static>)>;
 
 pub fn make_body_excl(
     inst: Inst,
@@ -224,7 +224,7 @@ pub fn make_body_excl(
         let run;
         let acts;
         {
-            let (mut r, _acc, _c) = state.get_mut(world);
+            let (mut r, _acc, _wr, _c) = state.get_mut(world);
             let (obs, held) = sample(&mut r);
             let ctx = begin_run(&sh, inst, ordinal, *l, obs);
             drop(held);
@@ -241,9 +241,9 @@ pub fn make_body_excl(
             }
         }
         {
-            let (_r, mut acc, mut c) = state.get_mut(world);
+            let (_r, mut acc, mut wr, mut c) = state.get_mut(world);
             for (seq, a) in queued.iter() {
-                exec_act(&sh, run, *seq, a, &mut c, &mut acc);
+                exec_act(&sh, run, *seq, a, &mut c, &mut acc, Some(&mut wr));
             }
         }
         sh.push(Ev::BodyEnd { run, err: false });
@@ -274,7 +274,7 @@ pub fn make_body_ew<T: EntityWorldReactor<Local = u32>>(
         obs.ew_local = got.ok();
         let ctx = begin_run(&sh, inst, ordinal, *l, obs);
         drop(held);
-        exec_acts(&sh, ctx.run, &ctx.acts, &mut c, &mut acc);
+        exec_acts(&sh, ctx.run, &ctx.acts, &mut c, &mut acc, None);
         sh.push(Ev::BodyEnd { run: ctx.run, err: false });
     }
 }
@@ -363,9 +363,9 @@ fn issued(sh: &Arc<Shared>, run: RunId, seq: u32, cmd: CmdId, act: RAct) {
 //-------------------------------------------------------------------------------------------------------------------
 // Action execution from inside a system (body or driver one-shot system)
 
-pub fn exec_acts(sh: &Arc<Shared>, run: RunId, acts: &[Act], c: &mut Commands, acc: &mut Access) {
+pub fn exec_acts(sh: &Arc<Shared>, run: RunId, acts: &[Act], c: &mut Commands, acc: &mut Access, mut wr: Option<&mut WrAccess>) {
     for (seq, a) in acts.iter().enumerate() {
-        exec_act(sh, run, seq as u32, a, c, acc);
+        exec_act(sh, run, seq as u32, a, c, acc, wr.as_deref_mut());
     }
 }
 
@@ -435,7 +435,7 @@ fn applied(sh: &Arc<Shared>, cmd: CmdId, note: Note) {
     sh.push(Ev::Applied { cmd, note });
 }
 
-pub fn exec_act(sh: &Arc<Shared>, run: RunId, seq: u32, a: &Act, c: &mut Commands, acc: &mut Access) {
+pub fn exec_act(sh: &Arc<Shared>, run: RunId, seq: u32, a: &Act, c: &mut Commands, acc: &mut Access, wr: Option<&mut WrAccess>) {
     let cmd = new_cmd(sh);
     match a.clone() {
         Act::Mark => {
@@ -734,7 +734,17 @@ pub fn exec_act(sh: &Arc<Shared>, run: RunId, seq: u32, a: &Act, c: &mut Command
             lk(&sh.st).wr_added[n as usize].push(items.clone());
             issued(sh, run, seq, cmd, RAct::WrAdd { wr: n, inst, bundle: b.resolved() });
             q_pre(c, sh, cmd);
-            c.queue(move |w: &mut World| do_wr_add(w, n, b));
+            match wr {
+                // the way users call it: with the system's own `Commands`
+                Some(wr) => {
+                    if n == 0 {
+                        wr.0.add(c, b);
+                    } else {
+                        wr.1.add(c, b);
+                    }
+                }
+                None => c.queue(move |w: &mut World| do_wr_add(w, n, b)),
+            }
             q_post(c, sh, cmd);
         }
         Act::WrRemove(n, sel) => {
@@ -762,7 +772,16 @@ pub fn exec_act(sh: &Arc<Shared>, run: RunId, seq: u32, a: &Act, c: &mut Command
             let b = DynBundle::new(&items);
             issued(sh, run, seq, cmd, RAct::WrRemove { wr: n, inst, bundle: b.resolved() });
             q_pre(c, sh, cmd);
-            c.queue(move |w: &mut World| do_wr_remove(w, n, b));
+            match wr {
+                Some(wr) => {
+                    if n == 0 {
+                        wr.0.remove(c, b);
+                    } else {
+                        wr.1.remove(c, b);
+                    }
+                }
+                None => c.queue(move |w: &mut World| do_wr_remove(w, n, b)),
+            }
             q_post(c, sh, cmd);
         }
         Act::WrRun(n) => {
@@ -770,7 +789,16 @@ pub fn exec_act(sh: &Arc<Shared>, run: RunId, seq: u32, a: &Act, c: &mut Command
             let inst = lk(&sh.st).wr_inst[n as usize];
             issued(sh, run, seq, cmd, RAct::WrRun { wr: n, inst });
             q_pre(c, sh, cmd);
-            c.queue(move |w: &mut World| do_wr_run(w, n));
+            match wr {
+                Some(wr) => {
+                    if n == 0 {
+                        wr.0.run(c);
+                    } else {
+                        wr.1.run(c);
+                    }
+                }
+                None => c.queue(move |w: &mut World| do_wr_run(w, n)),
+            }
             q_post(c, sh, cmd);
         }
         Act::EwAdd(n, r, data) => {
@@ -781,7 +809,16 @@ pub fn exec_act(sh: &Arc<Shared>, run: RunId, seq: u32, a: &Act, c: &mut Command
             };
             issued(sh, run, seq, cmd, RAct::EwAdd { ew: n, inst, ent: ebits(e), data });
             q_pre(c, sh, cmd);
-            c.queue(move |w: &mut World| do_ew_add(w, n, e, data));
+            match wr {
+                Some(wr) => {
+                    if n == 0 {
+                        wr.2.add(c, e, data);
+                    } else {
+                        wr.3.add(c, e, data);
+                    }
+                }
+                None => c.queue(move |w: &mut World| do_ew_add(w, n, e, data)),
+            }
             q_post(c, sh, cmd);
         }
         Act::EwRemove(n, r, part) => {
@@ -805,7 +842,16 @@ pub fn exec_act(sh: &Arc<Shared>, run: RunId, seq: u32, a: &Act, c: &mut Command
             let b = DynBundle::new(&items);
             issued(sh, run, seq, cmd, RAct::EwRemove { ew: n, inst, ents, bundle: b.resolved() });
             q_pre(c, sh, cmd);
-            c.queue(move |w: &mut World| do_ew_remove(w, n, b));
+            match wr {
+                Some(wr) => {
+                    if n == 0 {
+                        wr.2.remove(c, b);
+                    } else {
+                        wr.3.remove(c, b);
+                    }
+                }
+                None => c.queue(move |w: &mut World| do_ew_remove(w, n, b)),
+            }
             q_post(c, sh, cmd);
         }
         Act::Poll => {
@@ -872,14 +918,32 @@ pub fn do_remove(w: &mut World, sh: &Arc<Shared>, cmd: CmdId, e: Entity, comp: u
 }
 
 pub fn do_despawn_ent(w: &mut World, sh: &Arc<Shared>, cmd: CmdId, e: Entity) {
-    let mut was_alive = false;
-    let mut had = [false; NT];
-    if let Ok(em) = w.get_entity_mut(e) {
-        was_alive = true;
-        had = [em.contains::<React<Rc<0>>>(), em.contains::<React<Rc<1>>>()];
-        em.despawn_recursive();
+    // the despawn is recursive: log every entity of the subtree (children first) before it goes
+    fn collect(w: &World, e: Entity, out: &mut Vec<Entity>) {
+        if let Some(ch) = w.get::<Children>(e) {
+            for c in ch.iter() {
+                collect(w, *c, out);
+            }
+        }
+        out.push(e);
     }
-    applied(sh, cmd, Note::Despawned { ent: ebits(e), was_alive, had });
+    let mut victims = vec![];
+    if w.get_entity(e).is_ok() {
+        collect(w, e, &mut victims);
+    }
+    let mut notes = vec![];
+    for v in victims.iter() {
+        let had = [w.get::<React<Rc<0>>>(*v).is_some(), w.get::<React<Rc<1>>>(*v).is_some()];
+        notes.push(Note::Despawned { ent: ebits(*v), was_alive: true, had });
+    }
+    if let Ok(em) = w.get_entity_mut(e) {
+        em.despawn_recursive();
+    } else {
+        notes.push(Note::Despawned { ent: ebits(e), was_alive: false, had: [false; NT] });
+    }
+    for n in notes {
+        applied(sh, cmd, n);
+    }
 }
 
 pub fn do_respawn(w: &mut World, sh: &Arc<Shared>, cmd: CmdId, slot: u8) {
@@ -1093,6 +1157,14 @@ pub fn make_world(prog: Arc<Program>) -> Harness {
             }
         }
     }
+    // hierarchy: slot 3 is a child of slot 2 (despawning slot 2 despawns both)
+    {
+        let (p2, p3) = {
+            let st = lk(&sh.st);
+            (st.ents[2], st.ents[3])
+        };
+        app.world_mut().entity_mut(p3).set_parent(p2);
+    }
     // world reactors, entity world reactors, probe
     let nscripts = prog.scripts.len().max(1);
     let mut add_sys = |app: &mut App, kind: SysKindTag, script: usize| -> Inst {
@@ -1156,11 +1228,11 @@ pub fn make_world(prog: Arc<Program>) -> Harness {
 //-------------------------------------------------------------------------------------------------------------------
 // App mode: ordinary systems of the `Update` schedule
 
-fn frame_system<const K: usize>(mut c: Commands, mut acc: Access, sh: Res<ShRes>) {
+fn frame_system<const K: usize>(mut c: Commands, mut acc: Access, mut wr: WrAccess, sh: Res<ShRes>) {
     let job = lk(&sh.0.st).frame_acts[K].take();
     let Some((run, seq0, acts)) = job else { return };
     for (i, a) in acts.iter().enumerate() {
-        exec_act(&sh.0, run, seq0 + i as u32, a, &mut c, &mut acc);
+        exec_act(&sh.0, run, seq0 + i as u32, a, &mut c, &mut acc, Some(&mut wr));
     }
 }
 
@@ -1190,9 +1262,9 @@ fn direct_post(w: &mut World, sh: &Arc<Shared>, cmd: CmdId) {
 
 fn syscall_acts(w: &mut World, sh: &Arc<Shared>, run: RunId, seq0: u32, acts: Vec<Act>) {
     let sh2 = sh.clone();
-    w.syscall_once((), move |mut c: Commands, mut acc: Access| {
+    w.syscall_once((), move |mut c: Commands, mut acc: Access, mut wr: WrAccess| {
         for (i, a) in acts.iter().enumerate() {
-            exec_act(&sh2, run, seq0 + i as u32, a, &mut c, &mut acc);
+            exec_act(&sh2, run, seq0 + i as u32, a, &mut c, &mut acc, Some(&mut wr));
         }
     });
 }
